@@ -22,8 +22,7 @@ Fixpoint lit (s : string) : str :=
 Inductive uexn := X_Value | X_Assert | X_Type | X_UnicodeEncode | X_Attr | X_Other.
 
 (* RUnm: the input leaves the modelled fragment of the standard library
-   (bracketed IPv6/IPvFuture hosts need the ipaddress module; non-ASCII network
-   locations need the Unicode NFKC and lower-casing tables).  Theorems exclude
+   (non-ASCII network locations need the Unicode NFKC and lower-casing tables).  Theorems exclude
    it; the correspondence counts such cases and does not compare them. *)
 Inductive ures (A : Type) := ROk (a : A) | RErr (e : uexn) | RUnm.
 Arguments ROk {A}. Arguments RErr {A}. Arguments RUnm {A}.
@@ -212,6 +211,121 @@ Definition split_scheme (url : str) : str * str :=
 (* _splitnetloc: the network location ends at the first of / ? # *)
 Definition is_netloc_end (c : N) : bool := (c =? 47) || (c =? 63) || (c =? 35).
 
+(* decimal numerals *)
+Fixpoint uint_digits (u : Decimal.uint) : str :=
+  match u with
+  | Decimal.Nil => []
+  | Decimal.D0 u => 48 :: uint_digits u | Decimal.D1 u => 49 :: uint_digits u
+  | Decimal.D2 u => 50 :: uint_digits u | Decimal.D3 u => 51 :: uint_digits u
+  | Decimal.D4 u => 52 :: uint_digits u | Decimal.D5 u => 53 :: uint_digits u
+  | Decimal.D6 u => 54 :: uint_digits u | Decimal.D7 u => 55 :: uint_digits u
+  | Decimal.D8 u => 56 :: uint_digits u | Decimal.D9 u => 57 :: uint_digits u
+  end.
+Fixpoint digits_uint (s : str) : option Decimal.uint :=
+  match s with
+  | [] => Some Decimal.Nil
+  | c :: r =>
+      match digits_uint r with
+      | None => None
+      | Some u =>
+          if c =? 48 then Some (Decimal.D0 u) else if c =? 49 then Some (Decimal.D1 u)
+          else if c =? 50 then Some (Decimal.D2 u) else if c =? 51 then Some (Decimal.D3 u)
+          else if c =? 52 then Some (Decimal.D4 u) else if c =? 53 then Some (Decimal.D5 u)
+          else if c =? 54 then Some (Decimal.D6 u) else if c =? 55 then Some (Decimal.D7 u)
+          else if c =? 56 then Some (Decimal.D8 u) else if c =? 57 then Some (Decimal.D9 u)
+          else None
+      end
+  end.
+Definition dec_of_N (n : N) : str := uint_digits (N.to_uint n).
+(* '%d' % z  and  '%s' % z  for an int *)
+Definition dec_of_Z (z : Z) : str :=
+  match z with
+  | Z0 => [48]
+  | Zpos p => dec_of_N (Npos p)
+  | Zneg p => 45 :: dec_of_N (Npos p)
+  end.
+
+(* ------------------------------------------------------------------ bracketed hosts *)
+(* ipaddress.IPv4Address(str): four decimal octets, no leading zeros, <= 255 *)
+Definition valid_octet (o : str) : bool :=
+  negb (is_nil o) && forallb is_digit o && (Nat.leb (length o) 3)
+  && (match o with [48] => true | 48 :: _ => false | _ => true end)
+  && (match digits_uint o with Some u => N.of_uint u <=? 255 | None => false end).
+Definition valid_ipv4 (s : str) : bool :=
+  negb (is_nil s) && negb (chr_in 47 s)
+  && (let os := split_on 46 s in Nat.eqb (length os) 4 && forallb valid_octet os).
+(* IPv6Address._parse_hextet: one to four hex digits *)
+Definition valid_hextet (h : str) : bool := negb (is_nil h) && forallb is_hex h && Nat.leb (length h) 4.
+(* index of the empty parts among parts[1 .. len-2] (counted from 1) *)
+Fixpoint empties_from (i : nat) (l : list str) : list nat :=
+  match l with
+  | [] => []
+  | [_] => []                                  (* the last part is an endpoint *)
+  | x :: r => (if is_nil x then [i] else []) ++ empties_from (S i) r
+  end.
+(* IPv6Address._ip_int_from_string succeeds *)
+Definition valid_ipv6_addr (s : str) : bool :=
+  if is_nil s then false else
+  let parts0 := split_on 58 s in
+  if Nat.ltb (length parts0) 3 then false else
+  let lastp := last parts0 [] in
+  let oparts :=
+    if chr_in 46 lastp
+    then (if valid_ipv4 lastp then Some (removelast parts0 ++ [[48]; [48]]) else None)   (* two '%x' hextets *)
+    else Some parts0 in
+  match oparts with
+  | None => false
+  | Some parts =>
+      let n := length parts in
+      if Nat.ltb 9 n then false else
+      let first_empty := is_nil (hd [] parts) in
+      let last_empty := is_nil (last parts []) in
+      match empties_from 1 (tl parts) with
+      | _ :: _ :: _ => false                                   (* more than one '::' *)
+      | [k] =>
+          let hi0 := k in
+          let lo0 := (n - k - 1)%nat in
+          let hi := if first_empty then pred hi0 else hi0 in
+          let lo := if last_empty then pred lo0 else lo0 in
+          if first_empty && negb (Nat.eqb hi 0) then false
+          else if last_empty && negb (Nat.eqb lo 0) then false
+          else if Nat.ltb 7 (hi + lo) then false
+          else forallb valid_hextet (firstn hi parts) && forallb valid_hextet (skipn (n - lo) parts)
+      | [] =>
+          Nat.eqb n 8 && negb first_empty && negb last_empty && forallb valid_hextet parts
+      end
+  end.
+(* IPv6Address(str): no '/', an optional non-empty %scope without '%' *)
+Definition valid_ipv6 (s : str) : bool :=
+  negb (chr_in 47 s)
+  && match partition_at 37 s with
+     | None => valid_ipv6_addr s
+     | Some (a, z) => negb (is_nil z) && negb (chr_in 37 z) && valid_ipv6_addr a
+     end.
+(* _check_bracketed_host does not raise: IPvFuture  \Av[a-fA-F0-9]+\..+\Z , or an
+   IPv6 address (ip_address tries IPv4 first; an IPv4 address is refused) *)
+Definition check_bracketed (h : str) : bool :=
+  match h with
+  | c :: r =>
+      if c =? 118 then
+        let (hx, rest) := span_until (fun c => negb (is_hex c)) r in
+        negb (is_nil hx) && match rest with 46 :: t => negb (is_nil t) | _ => false end
+      else valid_ipv6 h
+  | [] => valid_ipv6 h
+  end.
+(* netloc.partition('[')[2].partition(']')[0] *)
+Definition bracketed_part (netloc : str) : str :=
+  match partition_at 91 netloc with
+  | Some (_, r) => match partition_at 93 r with Some (h, _) => h | None => r end
+  | None => []
+  end.
+(* the bracket checks of urlsplit pass (otherwise ValueError) *)
+Definition bracket_stage (netloc : str) : bool :=
+  if (chr_in 91 netloc && negb (chr_in 93 netloc)) || (chr_in 93 netloc && negb (chr_in 91 netloc))
+  then false                                             (* "Invalid IPv6 URL" *)
+  else if chr_in 91 netloc then check_bracketed (bracketed_part netloc)
+  else true.
+
 (* the '#' and '?' cuts: (path, query, fragment) *)
 Definition split_query_fragment (url3 : str) : str * str * str :=
   let (url4, fragment) := match partition_at 35 url3 with Some p => p | None => (url3, []) end in
@@ -226,9 +340,7 @@ Definition urlsplit_clean (url1 : str) : ures split5 :=
     | 47 :: 47 :: r => span_until is_netloc_end r
     | _ => ([], url2)
     end in
-  if (chr_in 91 netloc && negb (chr_in 93 netloc)) || (chr_in 93 netloc && negb (chr_in 91 netloc))
-  then RErr X_Value                                      (* "Invalid IPv6 URL" *)
-  else if chr_in 91 netloc then RUnm                     (* _check_bracketed_host: ipaddress / IPvFuture *)
+  if negb (bracket_stage netloc) then RErr X_Value
   else
     let '(path, query, fragment) := split_query_fragment url3 in
     if forallb is_ascii netloc                           (* _checknetloc returns at once *)
@@ -276,13 +388,19 @@ Definition userinfo (netloc : str) : option str * option str :=
       end
   | None => (None, None)
   end.
-(* _hostinfo without the '[' branch (urlsplit has answered RUnm / ValueError for
-   every netloc with a bracket) *)
+(* _NetlocResultMixinStr._hostinfo *)
 Definition hostinfo (netloc : str) : str * option str :=
   let hi := match rpartition_at 64 netloc with Some (_, h) => h | None => netloc end in
-  match partition_at 58 hi with
-  | Some (h, p) => (h, if is_nil p then None else Some p)
-  | None => (hi, None)
+  match partition_at 91 hi with
+  | Some (_, br) =>
+      let (h, pp) := match partition_at 93 br with Some x => x | None => (br, []) end in
+      let p := match partition_at 58 pp with Some (_, p) => p | None => [] end in
+      (h, if is_nil p then None else Some p)
+  | None =>
+      match partition_at 58 hi with
+      | Some (h, p) => (h, if is_nil p then None else Some p)
+      | None => (hi, None)
+      end
   end.
 (* .hostname: lower-cased up to a '%' (IPv6 zone), None when empty; ASCII only *)
 Definition hostname (netloc : str) : option str :=
@@ -292,40 +410,6 @@ Definition hostname (netloc : str) : option str :=
        | Some (a, z) => Some (lower_ascii a ++ 37 :: z)
        | None => Some (lower_ascii h)
        end.
-
-(* decimal numerals *)
-Fixpoint uint_digits (u : Decimal.uint) : str :=
-  match u with
-  | Decimal.Nil => []
-  | Decimal.D0 u => 48 :: uint_digits u | Decimal.D1 u => 49 :: uint_digits u
-  | Decimal.D2 u => 50 :: uint_digits u | Decimal.D3 u => 51 :: uint_digits u
-  | Decimal.D4 u => 52 :: uint_digits u | Decimal.D5 u => 53 :: uint_digits u
-  | Decimal.D6 u => 54 :: uint_digits u | Decimal.D7 u => 55 :: uint_digits u
-  | Decimal.D8 u => 56 :: uint_digits u | Decimal.D9 u => 57 :: uint_digits u
-  end.
-Fixpoint digits_uint (s : str) : option Decimal.uint :=
-  match s with
-  | [] => Some Decimal.Nil
-  | c :: r =>
-      match digits_uint r with
-      | None => None
-      | Some u =>
-          if c =? 48 then Some (Decimal.D0 u) else if c =? 49 then Some (Decimal.D1 u)
-          else if c =? 50 then Some (Decimal.D2 u) else if c =? 51 then Some (Decimal.D3 u)
-          else if c =? 52 then Some (Decimal.D4 u) else if c =? 53 then Some (Decimal.D5 u)
-          else if c =? 54 then Some (Decimal.D6 u) else if c =? 55 then Some (Decimal.D7 u)
-          else if c =? 56 then Some (Decimal.D8 u) else if c =? 57 then Some (Decimal.D9 u)
-          else None
-      end
-  end.
-Definition dec_of_N (n : N) : str := uint_digits (N.to_uint n).
-(* '%d' % z  and  '%s' % z  for an int *)
-Definition dec_of_Z (z : Z) : str :=
-  match z with
-  | Z0 => [48]
-  | Zpos p => dec_of_N (Npos p)
-  | Zneg p => 45 :: dec_of_N (Npos p)
-  end.
 
 (* .port: isdigit() and isascii(), int(), 0 <= port <= 65535 *)
 Definition port_of (netloc : str) : ures (option N) :=
@@ -389,6 +473,12 @@ Definition u_startswith (v : uv) (p : str) : ures bool :=
   match v with
   | UStr s => ROk (str_eqb (firstn (length p) s) p)
   | _ => RErr X_Attr
+  end.
+(* 'c' in v  for a one-character needle *)
+Definition u_has_char (v : uv) (c : N) : ures bool :=
+  match v with
+  | UStr s => ROk (chr_in c s)
+  | _ => RErr X_Type
   end.
 (* v[k:] *)
 Definition u_slice_from (v : uv) (k : nat) : ures uv :=
